@@ -12,10 +12,8 @@
 (*   nmod[q]    the module number stored in one note of pattern q          *)
 (* Projects are 1 and 2; module ids 1 and 2 are their Output modules.      *)
 (***************************************************************************)
-EXTENDS Integers, Sequences, FiniteSets, SequencesExt, TLC
+EXTENDS Integers, Sequences, FiniteSets, SequencesExt, TLC, RVSeq
 
-Has(q, x)     == \E i \in 1..Len(q) : q[i] = x
-IndexOf(q, x) == CHOOSE i \in 1..Len(q) : q[i] = x /\ \A j \in 1..(i-1) : q[j] # x
 Res(o, ps, r) == [outcome |-> o, posts |-> ps, ret |-> r]
 
 InitState(nm, np) ==
